@@ -375,11 +375,21 @@ type outMsg struct {
 	ret     int   // tick after the last call returned (0: never)
 	err     error // first error returned
 	partial bool  // a multi-call sequence stopped in the middle
+	// frames: kind 'F' only, one record per WriteFrame call made (the frame-level oracle)
+	frames []*frameRec
 	// body is what the frames of the message carry when it differs from payload: the reference
 	// permessage-deflate form (wsgen.Deflate, compress/flate directly) of a data message on a
 	// connection that negotiated compression. Used to attribute frames to messages only; whether
 	// the wire is right is decided by inflating it (wsgen.Judge).
 	body []byte
+}
+
+// frameRec is one WriteFrame call of a harness thread.
+type frameRec struct {
+	first, fin bool
+	data       []byte
+	call, ret  int
+	err        error
 }
 
 // wireBody is the byte string the frames of m carry.
@@ -510,4 +520,153 @@ func payloadFor(id, n int) []byte {
 		b[j] = byte(0x28 + id*8 + j)
 	}
 	return b
+}
+
+// ---------------------------------------------------------------------------------------------
+// frame-level oracle (WriteFrame callers)
+
+func hasFrameCallers(msgs []*outMsg) bool {
+	for _, m := range msgs {
+		if m.kind == 'F' {
+			return true
+		}
+	}
+	return false
+}
+
+func errClass(err error) string {
+	switch {
+	case err == nil:
+		return "nil"
+	case errors.Is(err, errInjected):
+		return "injected-write-error"
+	case errors.Is(err, net.ErrClosed):
+		return "closed"
+	case strings.Contains(err.Error(), "queue is full"):
+		return "queue-full"
+	}
+	return "other"
+}
+
+// judgeFrames applies the write part of the property at the granularity the frame API has: one
+// WriteFrame call = one frame. writes are the Write calls the conn accepted (nbio writes one
+// frame per call).
+//
+//   - every frame on the wire is a frame some caller wrote (WriteFrame record, a fragment of a
+//     WriteMessage payload, a ping)
+//   - a frame whose WriteFrame call returned an error is not on the wire
+//   - an accepted frame is on the wire at most once; exactly once when mustAll (nothing closed
+//     the connection and no write failed)
+//   - the frames of one writer thread appear in the order of its calls
+//   - the frames of one WriteMessage call are adjacent among the data frames (a control frame may
+//     sit between them): nbio holds the connection mutex across them. Nothing of that kind is
+//     required for a hand-made WriteFrame sequence: another writer's message may land between two
+//     of its frames, nbio has no API to reserve the connection across calls
+func judgeFrames(w *world, writes []wrec, msgs []*outMsg, mustAll bool, ctx string) {
+	type hit struct {
+		m *outMsg
+		r *frameRec
+	}
+	var seq []hit
+	var data []int // indices into seq of the data (non-control) frames
+	desc := func() string {
+		var all []byte
+		for _, wr := range writes {
+			all = append(all, wr.data...)
+		}
+		fr, _, _ := wsgen.ParseFrames(all)
+		return wireStr(fr)
+	}
+	for wi, wr := range writes {
+		if n := len(wr.data); n > 0 && bytes.Count(wr.data, []byte{track.PoisonByte}) == n {
+			w.failf("freed-buffer-sent|write #%d handed to the conn consists of the tracking allocator's poison bytes (%d x 0x%02X): the frame buffer had been given back to the allocator before it was sent, the peer receives whatever the pool holds there (%s)", wi, n, track.PoisonByte, ctx)
+			return
+		}
+		fr, _, err := wsgen.ParseFrames(wr.data)
+		if err != nil || len(fr) != 1 {
+			w.failf("wire-torn-frame|write #%d handed to the conn (%d bytes, %q) is not one whole frame (%s)", wi, len(wr.data), short(wr.data), ctx)
+			return
+		}
+		f := &fr[0]
+		var h hit
+		for _, m := range msgs {
+			for _, r := range m.frames {
+				if bytes.Equal(r.data, f.Payload) && f.Fin == r.fin && ((r.first && f.Op == m.op) || (!r.first && f.Op == wsgen.OpCont)) {
+					h = hit{m, r}
+				}
+			}
+		}
+		if h.r == nil {
+			for _, m := range msgs {
+				if m.kind != 'F' && ownsWrite(m, wr) && (m.kind == 'P') == f.IsControl() {
+					h.m = m
+				}
+			}
+		}
+		if h.m == nil && (f.Op == wsgen.OpClose || f.Op == wsgen.OpPong) {
+			continue // nbio's own protocol reply
+		}
+		if h.m == nil {
+			w.failf("wire-foreign-frame|frame #%d on the wire (%s) is no frame that any caller wrote: not a WriteFrame call's frame, not a fragment of a WriteMessage payload; wire=%s (%s)", wi, frameStr(f), desc(), ctx)
+			return
+		}
+		if !f.IsControl() {
+			data = append(data, len(seq))
+		}
+		seq = append(seq, h)
+	}
+	pos := map[*frameRec][]int{}
+	for i, h := range seq {
+		if h.r != nil {
+			pos[h.r] = append(pos[h.r], i)
+		}
+	}
+	for _, m := range msgs {
+		for k, r := range m.frames {
+			n := len(pos[r])
+			if r.err != nil && n > 0 {
+				w.failf("refused-frame-on-wire err=%s|WriteFrame call #%d of %s (%q) returned %v, yet that frame is on the wire (%d times); wire=%s (%s)", errClass(r.err), k, m.id, r.data, r.err, n, desc(), ctx)
+			}
+			if n > 1 {
+				w.failf("frame-duplicate|the frame of WriteFrame call #%d of %s (%q) is on the wire %d times; wire=%s (%s)", k, m.id, r.data, n, desc(), ctx)
+			}
+			if mustAll && r.err == nil && r.ret != 0 && n == 0 {
+				w.failf("frame-lost|WriteFrame call #%d of %s (%q) returned nil and nothing closed the connection, but the frame is not on the wire; wire=%s (%s)", k, m.id, r.data, desc(), ctx)
+			}
+		}
+	}
+	// order of one writer's frames (WriteFrame records only: WriteMessage is covered below and by
+	// the message-level judge)
+	last := map[int]int{}
+	lastID := map[int]string{}
+	for _, m := range msgs { // msgs lists each writer's messages in program order
+		for k, r := range m.frames {
+			if len(pos[r]) == 0 {
+				continue
+			}
+			p := pos[r][0]
+			if q, ok := last[m.writer]; ok && p < q {
+				w.failf("frame-order|the frame of WriteFrame call #%d of %s is on the wire before the frame of the earlier call %s of the same thread; wire=%s (%s)", k, m.id, lastID[m.writer], desc(), ctx)
+			}
+			last[m.writer], lastID[m.writer] = p, fmt.Sprintf("#%d of %s", k, m.id)
+		}
+	}
+	// WriteMessage stays whole whatever the frame callers do
+	for _, m := range msgs {
+		if m.kind != 'M' {
+			continue
+		}
+		var at []int
+		for di, si := range data {
+			if seq[si].m == m {
+				at = append(at, di)
+			}
+		}
+		for i := 1; i < len(at); i++ {
+			if at[i] != at[i-1]+1 {
+				w.failf("writemessage-interleaved|the frames of one WriteMessage call (%s) are not adjacent on the wire: another data frame sits between them; wire=%s (%s)", m.id, desc(), ctx)
+				break
+			}
+		}
+	}
 }
